@@ -269,6 +269,30 @@ func main() {
 			}
 		}
 	}
+	// lives of very different sizes on one set object: 3, 64, 65, 2, 200, 5 records (data), reset in between
+	{
+		u8 := pool[0]
+		for _, ie := range pool {
+			if ie.DataType == entities.Unsigned8 {
+				u8 = ie
+				break
+			}
+		}
+		for _, force := range []string{"copy", "adopt"} {
+			w.Reset(vt.Ev{"schedule": -1, "force": force})
+			s := entities.NewSet(false)
+			for _, life := range []int{3, 64, 65, 2, 200, 5} {
+				apply(w, s, op{kind: "prepare", stype: "data", id: 256}, force)
+				for k := 0; k < life; k++ {
+					apply(w, s, op{kind: "add", id: 256, path: force, ies: []*entities.InfoElement{u8}, vals: [][]int{{k % 251}}}, force)
+					evals++
+				}
+				apply(w, s, op{kind: "update"}, force)
+				apply(w, s, op{kind: "serialize", id: life, extra: 1}, force)
+				apply(w, s, op{kind: "reset"}, force)
+			}
+		}
+	}
 	w.Close()
 	vt.PrintSummary(vt.Summary{Events: w.Events(), Traces: w.Traces(), Evaluations: evals, Distinct: len(distinct)})
 }
